@@ -84,6 +84,7 @@ def mk_zone(pos, posm, iv):
     z[PZ + '_posm'] = O.Co(posm)
     z[PZ + '_margin_len'] = O.Op()
     z[PZ + '_margin_weight'] = O.Op()
+    z[PZ + '_dbg'] = O.Ptr(None)         # tracing builds: no debug output attached
     return z
 
 
